@@ -260,6 +260,35 @@ func ldColsFunc(res *core.Result, info *types.Info, name string, fd *ast.FuncDec
 				res.Count("ld_checks_delegated_by_table", 1)
 				continue
 			}
+			// the ld parameter handed to an unexported helper of the package
+			// (a prologue split off into checkDims(…, lda, …)) is checked there
+			handed := false
+			ast.Inspect(fd.Body, func(n ast.Node) bool {
+				c, ok := n.(*ast.CallExpr)
+				if !ok {
+					return true
+				}
+				var fn *types.Func
+				switch f := c.Fun.(type) {
+				case *ast.Ident:
+					fn, _ = info.Uses[f].(*types.Func)
+				case *ast.SelectorExpr:
+					fn, _ = info.Uses[f.Sel].(*types.Func)
+				}
+				if fn == nil || fn.Exported() {
+					return true
+				}
+				for _, a := range c.Args {
+					if id, ok := ast.Unparen(a).(*ast.Ident); ok && core.ObjOf(info, id) == lc.ld {
+						handed = true
+					}
+				}
+				return !handed
+			})
+			if handed {
+				res.Count("ld_checks_delegated_to_an_unexported_helper", 1)
+				continue
+			}
 			res.Add(core.Finding{Rule: "ARGS.ldcols", Key: fmt.Sprintf("ARGS.ldcols|%s|%s|none", name, lc.p.Name()), Pos: core.Pos(lc.pos), Func: name,
 				Msg: fmt.Sprintf("the length of %s is checked against rows of %s elements, but its leading dimension %s is not checked at all (a check of another operand's leading dimension written twice?): rows may overlap for an admitted %s", lc.p.Name(), lc.cols, lc.ld.Name(), lc.ld.Name())})
 			continue
